@@ -127,31 +127,33 @@ func build(c vcfg, fresh bool) *built {
 	return b
 }
 
-// verifyAll runs every verification step a verifier performs; "" means all passed.
+// verifyAll runs every verification step a verifier performs (all of them, so
+// that a panic in a later step is seen even when an earlier one already failed);
+// "" means all passed, otherwise the first failure.
 func verifyAll(ov *fdo.Voucher, dev *deploy.Device) string {
 	h256, h384 := dev.Hmacs()
-	if err := ov.VerifyHeader(h256, h384); err != nil {
-		return "VerifyHeader: " + err.Error()
+	first := ""
+	note := func(step string, err error) {
+		if err != nil && first == "" {
+			first = step + ": " + err.Error()
+		}
 	}
-	if err := ov.VerifyManufacturerKey(dev.Cred.PublicKeyHash); err != nil {
-		return "VerifyManufacturerKey: " + err.Error()
+	note("VerifyHeader", ov.VerifyHeader(h256, h384))
+	note("VerifyManufacturerKey", ov.VerifyManufacturerKey(dev.Cred.PublicKeyHash))
+	note("VerifyCertChainHash", ov.VerifyCertChainHash())
+	note("VerifyDeviceCertChain", ov.VerifyDeviceCertChain(nil))
+	note("VerifyEntries", ov.VerifyEntries())
+	_, err := ov.OwnerPublicKey()
+	note("OwnerPublicKey", err)
+	_, err = ov.DevicePublicKey()
+	note("DevicePublicKey", err)
+	note("VerifyManufacturerCertChain", ov.VerifyManufacturerCertChain(nil))
+	for i := range ov.Entries {
+		if ov.Entries[i].Payload != nil {
+			note("VerifyOwnerCertChain", ov.Entries[i].Payload.Val.VerifyOwnerCertChain(nil))
+		}
 	}
-	if err := ov.VerifyCertChainHash(); err != nil {
-		return "VerifyCertChainHash: " + err.Error()
-	}
-	if err := ov.VerifyDeviceCertChain(nil); err != nil {
-		return "VerifyDeviceCertChain: " + err.Error()
-	}
-	if err := ov.VerifyEntries(); err != nil {
-		return "VerifyEntries: " + err.Error()
-	}
-	if _, err := ov.OwnerPublicKey(); err != nil {
-		return "OwnerPublicKey: " + err.Error()
-	}
-	if _, err := ov.DevicePublicKey(); err != nil {
-		return "DevicePublicKey: " + err.Error()
-	}
-	return ""
+	return first
 }
 
 func refVerifyAll(b []byte, dev *deploy.Device) string {
